@@ -314,10 +314,12 @@ def perturbations(rng, notes, sigs):
             other = rng.choice([x for x in [(4, 4), (3, 4), (6, 8), (2, 2), (12, 8), (6, 4), (2, 4), (4, 8), (5, 8), (1, 1)] if x != val])
             out.append(("ts-other", notes, sigs[:j] + [(k, t, other)] + sigs[j + 1:]))
             out.append(("ts-tick", notes, sigs[:j] + [(k, t + 500, val)] + sigs[j + 1:]))
+            out.append(("ts-tick-near", notes, sigs[:j] + [(k, t + rng.choice([1, 24, 48]), val)] + sigs[j + 1:]))     # moved INSIDE the notes
         else:
             out.append(("ks-value", notes, sigs[:j] + [(k, t, (val + 1) % 15)] + sigs[j + 1:]))
             out.append(("ks-other", notes, sigs[:j] + [(k, t, rng.choice([x for x in range(15) if x != val]))] + sigs[j + 1:]))
             out.append(("ks-tick", notes, sigs[:j] + [(k, t + 500, val)] + sigs[j + 1:]))
+            out.append(("ks-tick-near", notes, sigs[:j] + [(k, t + rng.choice([1, 24, 48]), val)] + sigs[j + 1:]))
     return out
 
 
@@ -327,6 +329,24 @@ def wf_filter(notes):
         if not any(x[0] == n[0] and x[1] == n[1] and not (n[2] + n[3] <= x[2] or x[2] + x[3] <= n[2]) for x in ok):
             ok.append(n)
     return ok
+
+
+def gen_tied_channels(rng):
+    """notes on two or three channels with several onsets shared ACROSS channels, the earliest note not on channel 0 (where the signatures
+    of a multi-channel sequence sit): the order in which channels first appear then depends on where a signature stands (seeded C17_agent8)"""
+    chans = rng.choice([(1, 0), (2, 0, 1), (1, 0, 3)])
+    notes = [(chans[0], rng.choice([60, 62]), 0, rng.choice([12, 24]), 80)]
+    t = 0
+    for _ in range(rng.randint(1, 3)):
+        t += rng.choice([24, 48])
+        for c in rng.sample(chans, rng.randint(2, len(chans))):
+            notes.append((c, rng.choice([64, 65, 67, 69]) + c, t, rng.choice([12, 24]), rng.choice([64, 80, 100])))
+    sigs = []
+    if rng.random() < 0.8:
+        sigs.append(("ts", 0, rng.choice([(4, 4), (3, 4), (6, 8)])))
+    if rng.random() < 0.6:
+        sigs.append(("ks", 0, rng.randrange(15)))
+    return wf_filter(notes), sigs
 
 
 def generate(ctx):
@@ -350,6 +370,9 @@ def generate(ctx):
             sigs.append(("ts", rng.choice([0, 96]), G.any_sig(rng)))
         if rng.random() < 0.5:
             sigs.append(("ks", rng.choice([0, 48]), rng.randrange(15)))
+        if i % 5 == 4:
+            notes, sigs = gen_tied_channels(rng)
+            ctx.count("cross-channel-onset-ties")
         if sigs and rng.random() < 0.3:
             # a second, DIFFERENT signature of a kind on the tick of the first (D27's class: the insertion order of the two decides) —
             # or on a later tick
